@@ -9,8 +9,9 @@
 use quote::ToTokens;
 use std::io::Write;
 
-const LIB: &str = "/repo/graphql_query_derive/src/lib.rs";
-const ATTRS: &str = "/repo/graphql_query_derive/src/attributes.rs";
+/// the derive crate's source directory; `VERIF_C18_SRC` overrides it (used to try the check on
+/// mutated copies of the two files without touching /repo)
+const SRC: &str = "/repo/graphql_query_derive/src";
 const WANTED: [&str; 2] = ["build_query_and_schema_path", "build_graphql_client_derive_options"];
 
 fn mentions_proc_macro(ts: proc_macro2::TokenStream) -> bool {
@@ -22,6 +23,12 @@ fn mentions_proc_macro(ts: proc_macro2::TokenStream) -> bool {
 }
 
 fn main() {
+    println!("cargo:rerun-if-env-changed=VERIF_C18_SRC");
+    let src = std::env::var("VERIF_C18_SRC").unwrap_or_else(|_| SRC.to_string());
+    let lib = format!("{}/lib.rs", src);
+    let attrs = format!("{}/attributes.rs", src);
+    #[allow(non_snake_case)]
+    let (LIB, ATTRS) = (lib.as_str(), attrs.as_str());
     println!("cargo:rerun-if-changed={}", LIB);
     println!("cargo:rerun-if-changed={}", ATTRS);
     println!("cargo:rerun-if-changed=build.rs");
